@@ -1,11 +1,12 @@
 (** C18 -- Wire encoding round-trips and cannot be restructured by data.
     Modelled: encoding/xml's printer for the library's structs (Xml.Tree.marshal, EscapeText = xml_escape), a byte-level
     lexer with the reference decoder of encoding/xml (Xml.Lex), base64.StdEncoding, and the control flow of
-    InflateAndDecode / DeflateAndBase64.  NOT modelled: compress/flate (Section variables, hypothesis
-    inflate (deflate b) = Some b), the mapping from Go struct values to trees (the harness ties real documents to trees
-    byte for byte), encoding/xml's decoder beyond the printer's language. *)
+    InflateAndDecode / DeflateAndBase64.  the mapping from Go struct values to trees
+    (Xml/Schema.v: encoding/xml's tag and marshalValue rules over the schema go2v regenerates from the struct tags of
+    pkg/provider/xml/*/models.go).  NOT modelled: compress/flate (Section variables, hypothesis
+    inflate (deflate b) = Some b), encoding/xml's decoder beyond the printer's language. *)
 From Saml Require Import Base.Bytes Codec.Utf8 Codec.XmlEscape Codec.Sanitize Codec.Base64 Xml.Tree Xml.Lex Xml.Balanced Xml.SanTree
-  Idp.FactTypes Gen.Facts Core.WireCodec.
+  Idp.FactTypes Gen.Facts Core.WireCodec Xml.SchemaTypes Xml.Schema Gen.Schema.
 
 (** values made of legal XML characters come back exactly, through the XML reference decoder and through Go's *)
 Theorem C18_escape_roundtrip : forall s, legal_xml s = true -> xml_unescape (xml_escape s) = Some s /\ go_text_unescape (xml_escape s) = Some s.
@@ -33,6 +34,21 @@ Theorem C18_structure_any_data : forall t, names_okb t = true ->
   lex (marshal t) = Some (tokens (san_tree t)) /\ skeleton (tokens (san_tree t)) = skeleton (tokens (shape t)).
 Proof. exact data_cannot_restructure. Qed.
 
+(** from struct values: for every value of every XML model type of the library, with any strings whatsoever in its
+    fields (runtime element names, where a type has them, being names), the document Marshal prints lexes to the
+    tokens of the sanitised tree and has the element structure of the tree's shape: element and attribute names come
+    from the struct tags only.  The schema is the one generated from the current source, and the harness checks the
+    model against the real Marshal byte for byte on values of random shape (Corr.C18Corr.KStruct). *)
+Theorem C18_schema_names : schema_names_ok xml_schema = true /\ schema_tags_ok xml_schema = true.
+Proof. split; vm_compute; reflexivity. Qed.
+Theorem C18_struct_document : forall fuel ty v t, vnames_ok v = true -> marshal_root_f fuel xml_schema ty v = Some t ->
+  lex (marshal t) = Some (tokens (san_tree t)) /\ skeleton (tokens (san_tree t)) = skeleton (tokens (shape t)).
+Proof. intros fuel ty v t Hv H. exact (struct_data_cannot_restructure fuel xml_schema ty v t (proj1 C18_schema_names) Hv H). Qed.
+(** the only field any model type writes as raw XML is one the IdP never populates (and the model refuses a value
+    that does) *)
+Theorem C18_raw_xml_fields : raw_xml_fields xml_schema = [("saml.BaseIDAbstractType", "InnerXml")]%string.
+Proof. vm_compute. reflexivity. Qed.
+
 (** the transport codec *)
 Theorem C18_base64 : forall x, b64_decode (b64_encode x) = Some x.
 Proof. exact b64_decode_encode. Qed.
@@ -51,6 +67,12 @@ Example C18_example :
   wf t /\ lex_doc (marshal_doc t) = Some (tokens t).
 Proof. split; vm_compute; reflexivity. Qed.
 
+Example C18_struct_example :
+  option_map string_of_list_ascii (marshal_struct xml_schema "saml.SubjectType"
+    (VStruct [VName [] []; VNil; VPtr (VStruct [VName [] []; VStr (b "f<"); VStr []; VStr []; VStr []; VStr (b "]]>&")]); VNil; VList []]))
+  = Some "<Subject xmlns=""urn:oasis:names:tc:SAML:2.0:assertion""><NameID xmlns=""urn:oasis:names:tc:SAML:2.0:assertion"" Format=""f&lt;"">]]&gt;&amp;</NameID></Subject>"%string.
+Proof. vm_compute. reflexivity. Qed.
+
 Print Assumptions C18_escape_roundtrip.
 Print Assumptions C18_escape_any.
 Print Assumptions C18_no_markup.
@@ -62,3 +84,6 @@ Print Assumptions C18_base64.
 Print Assumptions C18_codec_roundtrip.
 Print Assumptions C18_unknown_encoding.
 Print Assumptions C18_codec_source.
+Print Assumptions C18_schema_names.
+Print Assumptions C18_struct_document.
+Print Assumptions C18_raw_xml_fields.
